@@ -140,6 +140,15 @@ def run(ctx, impl_only=False):
     n = 1500 if ctx.thorough() else 220
     vals = [{(1, 2): 'x', (2, 1): 'y'}, {(2, 1): 'y', (1, 2): 'x'}, [{('a', 'b'): 1, ('b', 'a'): 2}], {'k': {(1, 2): [1], (2, 1): [2]}},
             {(1, 1, 2): 0, (1, 2): 1, (2, 1, 1): 2}]
+    # one tuple as a dictionary key and as an ordinary item of the same value (whichever role is met first must not decide the digest)
+    for t in [(1, 2), (2, 1), ('a', 'b'), (1, 'a', None), ((1, 2), 3)]:
+        vals += [{'origin': t, t: 'start'}, [t, {t: 1}], [{t: 1}, t], {'k': [t, t], t: [t]}, [{t: t}, [t]]]
+    # an int leaf that equals the id() of a container of the same value (containers are entered in the table under their id, leaves under their value)
+    for mk in (lambda: [1, 2], lambda: {'a': 1}, lambda: {1, 2}, lambda: [[1], 'x']):
+        x = mk()
+        vals += [{'payload': x, 'address': id(x)}, [x, id(x)], [id(x), x], {'address': id(x), 'payload': x}]
+        y = mk()
+        vals.append({'a': y, 'b': [id(y), y], 'c': {'id': id(y)}})
     for _ in range(n * 3):
         v = g.value()
         if HS.no_num_alias(v):
